@@ -79,6 +79,58 @@ add("C02", "exploration",
     "property-based testing (rapid) vs an exact-arithmetic DE-9IM oracle",
     "DESIGN.md C02")
 
+
+add("C09", "exploration",
+    "C01's pair generator (plus a hole-nesting family and a third geometry) and a dense family with 20..2000 primitives per operand. Intersects must equal the exact intersects (exact segment-pair intersection or exact containment of a vertex), be symmetric, equal not-Disjoint and equal non-emptiness of Intersection; Distance must be symmetric, defined iff both operands are non-empty, zero iff they intersect exactly, within 1e-9 x magnitude of the exact minimum distance (rational arithmetic, square root at 200 bits; float brute force for the dense family), not below the envelope distance, and obey d(a,c) <= d(a,b)+diam(b)+d(b,c).",
+    "Trusted: exact kernel; float brute force for the dense family (integer inputs).",
+    "property-based testing (rapid) vs exact-arithmetic and brute-force oracles",
+    "DESIGN.md C09")
+add("C10", "exploration",
+    "Programs of 5..40 API calls drawn by reflection over the whole public read API (every exported value-receiver method of Geometry, the concrete types, Envelope, Sequence; 28 free functions) on a shared pool of 4 operands. Purity: canonical rendering of every operand unchanged after every call, after overwriting returned slices, after the concurrent phase; constructors do not retain slices; NewSequence's float slice never written; shared R-tree unchanged. Determinism: every call repeated 8x/32x bit-identically, 1 case in 20 replayed in a fresh process. Concurrency: the program issued from 2..16 goroutines (GOMAXPROCS 2/4/16) in a -race binary with halt_on_error; results must equal the sequential transcript and the race detector must stay silent.",
+    "Schedules are sampled, not enumerated (the Go scheduler cannot be controlled from a property library); the race detector's happens-before analysis flags conflicting unsynchronised accesses that occur in a run. Trusted: reflection-based argument synthesis respects documented preconditions.",
+    "property-based testing (rapid): generated API programs, repetition, differential process, race detector",
+    "DESIGN.md C10")
+add("C12", "exploration",
+    "Envelope algebra over the integer lattice {-2..2}^2 incl. degenerate and empty envelopes: all ordered pairs enumerated (both tiers), all triples in thorough, every method against integer interval arithmetic; and generated geometries of every type/coordinate type: Envelope() is exactly the min/max of the control points (Geometry, concrete type, Sequence), empty iff the geometry is, invariant under Reverse/Force*/member rotation, join of members, Envelope(Union) = join within 1e-9.",
+    "Trusted: integer interval arithmetic in props/c12_test.go.",
+    "exhaustive enumeration of a finite lattice + property-based testing (rapid)",
+    "DESIGN.md C12")
+add("C13", "exploration",
+    "Point multisets (1..200 integer points, collinear / on a square border / scattered, with repetitions) wrapped in every geometry type and re-ordered; general-position float points; every subset of 1..6 points of the 4x4 grid. The hull must satisfy a characterisation checked in exact arithmetic (type by affine rank; closed CCW ring of strict left turns; vertices are control points; every control point on or left of every edge), be idempotent bit-for-bit and independent of order/multiplicity; rotated rectangles must be rectangles covering the hull, have a side on a hull edge and match the exact minimum area / width over edge-aligned rectangles.",
+    "Trusted: exact orientation predicate. Float points that are not in general position (relative 1e-6) are skipped and counted. Library calls run under a watchdog: a call that does not return is reported as a hang only if it repeats when re-run alone.",
+    "property-based testing (rapid) + exhaustive small-space enumeration vs an exact characterisation",
+    "DESIGN.md C13")
+add("C14", "exploration",
+    "Valid geometries of every type (lattice and exact dyadic float images): Area vs the exact sum of slab trapezoids (cross-checked with the exact shoelace value), signed area after ForceCCW/ForceCW/Reverse, Area(WithTransform f) = TransformXY(f).Area() = area x |det f|, Length and length-weighted centroid at 200 bits, exact area-weighted centroid / point average, on Geometry and the concrete types; invariance under ring rotation, reversal, member permutation, Z/M; translation; additivity.",
+    "Trusted: exact kernel. Tolerance 1e-9 x magnitude (squared for area).",
+    "property-based testing (rapid) vs exact-arithmetic measures + metamorphic relations",
+    "DESIGN.md C14")
+add("C15", "exploration",
+    "Valid geometries of every type: Boundary(g) has lower dimension or is empty, an empty boundary itself, every vertex and segment midpoint of it is located Boundary in g by the exact OGC locator, its points are exactly the odd-degree end points and its segments exactly g's ring segments, a collection's boundary is the ordered list of its members' non-empty boundaries; PointOnSurface(g) is empty iff g is, finite, XY, exactly interior for areal g and on a member of the highest dimension otherwise; Dimension/IsEmpty equal the structural values.",
+    "Trusted: exact kernel.",
+    "property-based testing (rapid) vs the exact OGC point locator",
+    "DESIGN.md C15")
+add("C16", "exploration",
+    "Geometries of 7 types x 4 coordinate types with unique per-vertex Z/M tags (empties, nesting, zero values): a recursive walker asserts one CoordinatesType() for the geometry and everything reachable after construction and after every operation; mixed-type constructors reduce to the common subset; ForceCoordinatesType/Force2D equal the harness model exactly; Reverse/ForceCW/ForceCCW/AsMulti*/Dump keep the multiset of full positions; DumpCoordinates order; TransformXY/SnapToGrid touch XY only; Densify keeps tagged originals and interpolates Z/M; Simplify emits only tagged originals; WKB/WKT round trips; XY-only operations return XY throughout.",
+    "Trusted: gm model conversion (read-back checked).",
+    "property-based testing (rapid): tagged-vertex tracking against a harness model",
+    "DESIGN.md C16")
+add("C17", "exploration",
+    "Valid lineal/areal geometries with tagged vertices and drawn parameters (distances and thresholds relative to the diameter or exact integer lengths, fractions incl. break points +-1 ulp, n -1..50, scalars of every float class x decimal places -320..320). Exact-arithmetic checks: Densify (originals in order, inserted points on their segment, no gap > d, measures unchanged, d <= 0 panics), Simplify (dynamic-programme embedding: subsequence with every dropped vertex within t of the line through its bracketing kept vertices; valid or error), Interpolate (arc-length position at 200 bits, Z/M, counts), SnapToGrid (odd, finite, within half a step + 2 ulp, idempotent below 2^40 steps), Reverse (involution), ForceCW/CCW (exact ring orientations, idempotent).",
+    "Trusted: exact kernel primitives, math/big.",
+    "property-based testing (rapid) vs exact-arithmetic contracts",
+    "DESIGN.md C17")
+add("C19", "exploration",
+    "Nine projections x drawn configurations (centre/origin, standard parallels in both hemispheres and orders, radius, zoom) x points (centre itself, standard parallels, graticule, random) in each implementation's well-conditioned domain, plus the enumerated graticule for fixed configurations: Forward finite, Reverse(Forward(p)) within 1e-9 degrees (NaN fails), equal-area / conformal / equidistant character by central-difference Jacobians, standard parallels true to scale, web Mercator square/centre/orientation.",
+    "Trusted: math package. Singular configurations (equal or symmetric standard parallels, cos(p1)=0) are excluded.",
+    "property-based testing (rapid) + graticule enumeration: round-trip and metamorphic Jacobian identities",
+    "DESIGN.md C19")
+add("C20", "exploration",
+    "Every exported value-receiver method (found by reflection; 351 distinct) and 28 free functions invoked with receivers/arguments from an empties zoo (zero values, typed empties in 4 coordinate types, collections of empties, nested) and real geometries: no panic; documented neutral answers for empty receivers; geom.Geometry{} vs an explicit empty GeometryCollection give identical canonical results; transparency: g vs g+ (empty members inserted) agree on measures, envelope, hull, distance, intersects, DE-9IM, all predicates and the point sets of all set operations.",
+    "Trusted: argument synthesis respects documented preconditions (valid indices, MustAsX on the matching type, Densify > 0); point-set equality by the exact kernel. Free functions not in the table are listed in the evidence (uncovered_api).",
+    "property-based testing (rapid) over a reflection-enumerated API: totality + differential + metamorphic",
+    "DESIGN.md C20")
+
 NOT_YET = "check not built yet in this session (build in progress; see DESIGN.md section 7)"
 manifest = dict(
     version=1,
@@ -93,7 +145,7 @@ manifest = dict(
     engines=[dict(name="verifdrv", path="cmd/verifdrv", serves_properties=sorted(checks),
                   kind_free_text="Go driver: rebuilds props test binary from /repo working tree (tag verif), replays regress/ and known findings, runs 16 rapid shards seeded from VERIF_SEED, merges evidence, native go fuzz in thorough where registered")],
     checks=[checks[k] for k in sorted(checks)],
-    notes="All checks: exit 0 held, 1 + VIOLATION line, 2 inconclusive (build error/timeout). known_findings.json lists fixed/open genuine defects; regress/<ID>/ holds their minimised inputs.",
+    notes="All 20 properties are claimed. All checks: exit 0 held, 1 + VIOLATION line, 2 inconclusive (build error/timeout). known_findings.json lists fixed/open genuine defects; regress/<ID>/ holds their minimised inputs.",
     not_applicable=[dict(property_id=p, reason=NOT_YET) for p in ALL if p not in checks],
 )
 json.dump(manifest, open(os.path.join(os.path.dirname(__file__), "..", "MANIFEST.json"), "w"), indent=1)
